@@ -83,9 +83,19 @@ def theorems_of(prop):
     for mod in modules_of(prop):
         p = os.path.join(LEANDIR, "Cinco", "Props", mod + ".lean")
         src = strip_comments(open(p, encoding="utf-8").read())
-        ns = re.search(r"^namespace\s+(\S+)", src, re.M).group(1)
-        names = re.findall(r"^\s*(?:protected\s+|private\s+)?theorem\s+([^\s:({\[]+)", src, re.M)
-        out += [ns + "." + n for n in names]
+        stack = []                                   # nested namespaces (sections do not qualify names)
+        for line in src.splitlines():
+            m = re.match(r"^\s*namespace\s+(\S+)", line)
+            if m:
+                stack.append(m.group(1))
+                continue
+            m = re.match(r"^\s*end\s+(\S+)", line)
+            if m and stack and stack[-1] == m.group(1):
+                stack.pop()
+                continue
+            m = re.match(r"^\s*(?:@\[[^\]]*\]\s*)?(?:protected\s+|private\s+)?theorem\s+([^\s:({\[]+)", line)
+            if m:
+                out.append(".".join(stack + [m.group(1)]))
     return out
 
 
